@@ -130,4 +130,23 @@ def maxIterations : Nat := 0x1000000
 /-- iterations the client is willing to run for a count taken from (unauthenticated) KDC hints -/
 def iterationsAccepted (n : Nat) : Option Nat := if n > maxIterations then none else some n
 
+/-! ## pac.UPNDNSInfo.Unmarshal: the two fields sliced out of the buffer -/
+
+/-- the slicing after the header: lengths and offsets are 16-bit values from the buffer; the bound check
+    is done on ints, and (after the repair) so is the arithmetic of the slice expressions -/
+def upnSlices (b : Bytes) (upnLen upnOff dnsLen dnsOff : Nat) : Outcome (Bytes × Bytes) :=
+  if upnOff + upnLen > b.length ∨ dnsOff + dnsLen > b.length then err "outside"
+  else do
+    let u ← goSlice b upnOff ((upnOff : Int) + upnLen)
+    let d ← goSlice b dnsOff ((dnsOff : Int) + dnsLen)
+    pure (u, d)
+
+/-- before the repair the end of each slice was computed in uint16 arithmetic -/
+def upnSlices_v0 (b : Bytes) (upnLen upnOff dnsLen dnsOff : Nat) : Outcome (Bytes × Bytes) :=
+  if upnOff + upnLen > b.length ∨ dnsOff + dnsLen > b.length then err "outside"
+  else do
+    let u ← goSlice b upnOff (((upnOff + upnLen) % 65536 : Nat) : Int)
+    let d ← goSlice b dnsOff (((dnsOff + dnsLen) % 65536 : Nat) : Int)
+    pure (u, d)
+
 end Krb.Total
